@@ -96,6 +96,21 @@ Section Solver.
   Definition stamp (s : mstate) (v : vals) (p : nat) (x : st) (k : nat) (lg : list event) : mstate :=
     mkState v (upd p x (status s)) (upd p (Z.of_nat k) (iters s)) lg.
 
+  (* final bookkeeping: status[t], iterations[t], NonConvergenceError, return value *)
+  Definition finish (o : opts) (s : mstate) (p : nat) (r : lres) : mstate * outcome bool :=
+    match r with
+    | LRaise v' wr e lg =>
+        (match wr with
+         | Some (x, k) => stamp s v' p x k lg
+         | None => with_vals s v' lg
+         end, Raise e)
+    | LDone v' x k lg =>
+        (* `iteration = 0` precedes the loop (fix for finding #1), so max_iter <= 0 stamps F / 0 *)
+        let s' := stamp s v' p x k lg in
+        if st_eqb x Failed && fail_raise o then (s', Raise NonConvergenceError)
+        else (s', Ret (st_eqb x Solved))
+    end.
+
   Definition solve_t_M (d : mdesc) (o : opts) (t : Z) (s : mstate) : mstate * outcome bool :=
     if max_iter o <? min_iter o then (s, Raise ValueError) else
     let n := length (status s) in
@@ -118,19 +133,7 @@ Section Solver.
           let lg0 := log s ++ [EvBefore t] in
           match before t (errors o) (catch_first o) 0%nat v0 with
           | (v1, Some c) => (with_vals s v1 lg0, Raise (SolutionError (Some c)))
-          | (v1, None) =>
-            match loop d o t p (Z.to_nat (max_iter o)) 1%nat v1 cur lg0 with
-            | LRaise v' wr e lg =>
-                (match wr with
-                 | Some (x, k) => stamp s v' p x k lg
-                 | None => with_vals s v' lg
-                 end, Raise e)
-            | LDone v' x k lg =>
-                (* `iteration = 0` precedes the loop (fix for finding #1), so max_iter <= 0 stamps F / 0 *)
-                let s' := stamp s v' p x k lg in
-                if st_eqb x Failed && fail_raise o then (s', Raise NonConvergenceError)
-                else (s', Ret (st_eqb x Solved))
-            end
+          | (v1, None) => finish o s p (loop d o t p (Z.to_nat (max_iter o)) 1%nat v1 cur lg0)
           end
       end
     end.
